@@ -1071,6 +1071,10 @@ def _capture_special(prop):
          "a.into_iter().filter(d0).filter_map(d1).find(d2)", "Option<u8>", 5),
         ("find_map_partition", "a.into_iter() ?&!> %s" % cap(1, 0, 1, 0, cl(1, 0, 1, "*x > 3", "x: &u8")),
          ["let d0 = %s;" % cap(1, 0, 1, 0, cl(1, 0, 1, "*x > 3", "x: &u8"))], "a.into_iter().partition(d0)", "(Acc, Acc)", 5),
+        # a LABELLED block is a block too (syn: Expr::Block with a label): hoisted like any other
+        ("labeled_block", "Some(a1) |> 'l: { ev(code(K_CAP, 1, 0, 2)); break 'l %s }" % cl(1, 0, 1, "x.wrapping_add(2)"),
+         ["let d0 = 'l: { ev(code(K_CAP, 1, 0, 2)); break 'l %s };" % cl(1, 0, 1, "x.wrapping_add(2)")],
+         "Some(a1).map(d0)", "Option<u8>", 0),
         ("wrapper_capture_unused", "if a1 > 100 { Some(Some(a1)) } else { None } |> >>> |> %s <<<" % cap(1, 0, 2, 0, cl(1, 0, 2, "x.wrapping_add(1)")),
          ["let d0 = %s;" % cap(1, 0, 2, 0, cl(1, 0, 2, "x.wrapping_add(1)"))], "(if a1 > 100 { Some(Some(a1)) } else { None }).map(|v| v.map(d0))", "Option<Option<u8>>", 0),
     ]
